@@ -1,6 +1,6 @@
 """C15 — ItemPool hand-off (sequential object under the lock), header lines, SpinLock."""
 ID = "C15"
-EXTRA_PROPS = ["C15Lock"]   # c15_lock_orderings_ok: the orderings extracted from spinlock.rs / item.rs (own file: see there)
+EXTRA_PROPS = ["C15Lock", "PoolFnsTables"]   # c15_lock_orderings_ok: the orderings extracted from spinlock.rs / item.rs (own file: see there)
 N_QUICK, N_THOROUGH = 3000, 150000
 RULE = ("P-cases: random operation sequences over {append k, take, reset, clear, len, num_taken, num_not_taken, reserved} on the real "
         "ItemPool with header_lines N in {0,1,2,3,5,40}; batch sizes aimed at N-1,N,N+1; L-cases: the real SpinLock with 2..8 threads doing "
